@@ -21,3 +21,17 @@ package common
 //@   property C15 C01 C08
 //@   ensures value: result != nil && fresh(result) && val(result) == os2ip(sha256(bytes(input))) && val(result) >= 0
 //@   modifies nothing
+
+//@ func HashCommit
+//@   property C15 C02 C08
+//@   requires forall i in 0..len(values) :: values[i] != nil
+//@   ensures value: result != nil && fresh(result) && val(result) >= 0
+//@   modifies nothing
+//@   loop 0 invariant 0 <= $i && $i <= len(values) && len(tmp) == len(values) + 1 + b2i(issig) && fresh(tmp)
+//@   loop 0 invariant issig ==> tmp[0] is bool && tmp[0].(bool)
+//@   loop 0 invariant ismathbig(tmp[b2i(issig)]) && mbval(tmp[b2i(issig)]) == len(values) && fresh(ipay(tmp[b2i(issig)]))
+//@   loop 0 invariant forall j in 0..$i :: ismathbig(tmp[j + 1 + b2i(issig)]) && ipay(tmp[j + 1 + b2i(issig)]) == ref(values[j])
+//@   assert at encoding/asn1.Marshal count: len($0.([]any)) == len(values) + 1 + b2i(issig)
+//@   assert at encoding/asn1.Marshal marker: issig ==> $0.([]any)[0] is bool && $0.([]any)[0].(bool)
+//@   assert at encoding/asn1.Marshal length: ismathbig($0.([]any)[b2i(issig)]) && mbval($0.([]any)[b2i(issig)]) == len(values)
+//@   assert at encoding/asn1.Marshal elements: forall j in 0..len(values) :: ismathbig($0.([]any)[j + 1 + b2i(issig)]) && ipay($0.([]any)[j + 1 + b2i(issig)]) == ref(values[j])
